@@ -32,6 +32,8 @@ pub struct SimResult {
 }
 
 pub const CHUNK: usize = 256;
+/// per worker thread; beyond it the reported numbers of distinct outputs are lower bounds
+pub const DISTINCT_CAP_PER_THREAD: usize = 3_000_000;
 
 /// `njobs` job indices; `build(i)` decodes index i into a closed system (None = not part of the enumeration).
 pub fn run_jobs(property: &str, njobs: usize, build: &(dyn Fn(usize) -> Option<SimSys> + Sync), judge: &(dyn Fn(&SimSys, &mut Stats) -> JobOut + Sync), ctx: &WorkerCtx) -> SimResult {
@@ -79,10 +81,16 @@ pub fn run_jobs(property: &str, njobs: usize, build: &(dyn Fn(usize) -> Option<S
                                 let out = judge(&sys, &mut p.stats);
                                 p.runs += 1;
                                 p.events += out.events;
-                                p.outs.insert(out.out_hash);
+                                // the sets of distinct outputs only feed the coverage report: bounded, so that a
+                                // billion-system run does not need tens of gigabytes for them
+                                if p.outs.len() < DISTINCT_CAP_PER_THREAD {
+                                    p.outs.insert(out.out_hash);
+                                }
                                 if out.nontrivial {
                                     p.nontrivial += 1;
-                                    p.nt_outs.insert(out.out_hash);
+                                    if p.nt_outs.len() < DISTINCT_CAP_PER_THREAD {
+                                        p.nt_outs.insert(out.out_hash);
+                                    }
                                     if p.samples.len() < 2 {
                                         if let Some(s) = out.sample {
                                             p.samples.push(s);
@@ -162,6 +170,7 @@ pub fn coverage_json(r: &SimResult, rule: &str, exhaustive: bool, extra: Value) 
         "events_monitored": r.events,
         "nontrivial_runs": r.nontrivial_runs,
         "distinct_output_traces": r.distinct_outputs,
+        "distinct_output_counts_are_lower_bounds_above": DISTINCT_CAP_PER_THREAD,
         "violating_runs_by_signature": r.violation_counts.iter().map(|(k, v)| (k.clone(), json!(v))).collect::<serde_json::Map<String, Value>>(),
         "monitor_counters": r.stats.0.iter().map(|(k, v)| (k.to_string(), json!(v))).collect::<serde_json::Map<String, Value>>(),
     });
